@@ -155,10 +155,24 @@ pub fn eval(c: &Case, obs: &mut Obs) -> Result<(), String> {
         }
         5 => {
             let arch = if c.typ & 1 == 0 { h::HeaderTagISA::I386 } else { h::HeaderTagISA::MIPS32 };
-            let hd = *h::Builder::new(arch).build().header();
+            let mut hd = *h::Builder::new(arch).build().header();
             let mut hb = vec![0u8; 16];
             put32(&mut hb, 0, mb2_model::walk::HDR_MAGIC);
             put32(&mut hb, 4, if c.typ & 1 == 0 { 0 } else { 4 });
+            // every other case: a basic header read from raw bytes whose first word
+            // is not the Multiboot2 magic (construction sets the size field and the
+            // checksum that goes with it - nothing else)
+            if c.typ & 2 == 2 {
+                let magic = [0x1BAD_B002u32, 0, 0xFFFF_FFFF, 0xD650_52E8, c.typ | 1][(c.typ >> 2) as usize % 5];
+                let mut raw = hb.clone();
+                put32(&mut raw, 0, magic);
+                put32(&mut raw, 8, 16);
+                let arch_word = le32(&raw, 4);
+                put32(&mut raw, 12, mb2_model::walk::model_checksum(magic, arch_word, 16));
+                let a = Aligned::new(&raw);
+                hd = *DynSizedStructure::<h::Multiboot2BasicHeader>::ref_from_slice(a.as_slice()).map_err(|e| format!("{e:?}"))?.header();
+                put32(&mut hb, 0, magic);
+            }
             check_box::<DynSizedStructure<h::Multiboot2BasicHeader>>(hd, &hb, 8, &slices)
         }
         _ => {
